@@ -358,9 +358,11 @@ func checkTriple(c *vkit.Collector, rng *vkit.Rng, t triple, withT bool) {
 			endMin := math.Min(float64(s2.ChordAngleBetweenPoints(x, a)), float64(s2.ChordAngleBetweenPoints(x, b)))
 			switch {
 			case less == (g < l):
-			case less && oki && endMin < l:
+			case less && oki && endMin < l && math.Abs(g-endMin) <= math.Max(s2.VerifC17MinUpdateDistanceMaxError(d), s2.VerifC17MinUpdateDistanceMaxError(s1.ChordAngle(endMin))):
 				// KNOWN finding: with alwaysUpdate the interior value is returned although the distance to an
-				// endpoint is smaller; the threshold form then falls through to the endpoint and says "less"
+				// endpoint is smaller; the threshold form then falls through to the endpoint and says "less".
+				// Only when the two values are within the documented minUpdateDistanceMaxError of each other;
+				// any larger disagreement is a plain IsDistanceLess.threshold violation.
 				limited(c, "threshold.endpoint_below_interior", fmt.Sprintf("IsDistanceLess(limit=%v)=true although the distance computed by UpdateMinDistance(inf)/DistanceFromSegment is %v >= limit: the interior value exceeds the endpoint distance %v", l, g, endMin), R("limit", l, "limit_bits", fmt.Sprintf("%x", math.Float64bits(l)), "dist2", g, "endpoint_dist2", endMin))
 			default:
 				c.Violate("IsDistanceLess.threshold", fmt.Sprintf("IsDistanceLess=%v but computed distance %v vs limit %v", less, g, l), R("limit", l, "limit_bits", fmt.Sprintf("%x", math.Float64bits(l)), "dist2", g))
@@ -447,14 +449,7 @@ func checkTriple(c *vkit.Collector, rng *vkit.Rng, t triple, withT bool) {
 	pc2 := vnorm2(vsub(X3, P3))
 	e1 := f64(babs(bsub(dP, tAng)))
 	e2 := f64(babs(bsub(pc2, tc2)))
-	rho := math.Inf(1)
-	kappa := 1.0
-	if a != b {
-		N3 := vcross(A3, B3)
-		r := f64(vangle(X3, N3))
-		rho = math.Min(r, math.Pi-r)
-		kappa = math.Max(1, 2/f64(vnorm(badd3(A3, B3))))
-	}
+	rho, kappa := poleParams(x, a, b)
 	tol := 1e-14 + 1e-15*kappa*(1+1/rho)
 	off := 0.0
 	if pc, _, okp := trueSegDist(proj.Vector, a.Vector, b.Vector); okp {
@@ -462,9 +457,12 @@ func checkTriple(c *vkit.Collector, rng *vkit.Rng, t triple, withT bool) {
 	}
 	track("max_project_off_segment/tol", off/tol)
 	switch {
-	case off > 1e-3:
-		// KNOWN finding: x at (or within rounding of) the pole of the edge
+	case off > 1e-3 && rho <= poleRounding*kappa:
+		// KNOWN finding, only for x within rounding of the pole of the edge (see poleRounding)
+		track("max rho/kappa among Project.pole_far_from_edge events", rho/kappa)
 		limited(c, "Project.pole_far_from_edge", fmt.Sprintf("Project(x,a,b) is %.3g rad away from the edge ab (x is %.3g rad from the pole of the edge)", off, rho), R("project", proj, "off_segment_rad", off))
+	case off > 1e-3 && off > tol:
+		c.Violate("Project.on_segment.gross", fmt.Sprintf("Project(x,a,b) is %.3g rad away from the edge ab although x is %.3g rad from the pole of the edge (tolerance %.3g)", off, rho, tol), R("project", proj, "off_segment_rad", off))
 	case off > tol:
 		c.Violate("Project.on_segment", fmt.Sprintf("projected point is %.3g rad away from the segment (tolerance %.3g)", off, tol), R("project", proj))
 	case e1 > tol && e2 > 3e-15:
@@ -714,15 +712,27 @@ func runPairConfigs(c *vkit.Collector, rng *vkit.Rng, budget int) {
 	}
 }
 
-// onEdgeTol: how far from its edge a point returned by Project(x, e0, e1) may be (see checkTriple (iv))
-func onEdgeTol(x, e0, e1 s2.Point) float64 {
+// poleRounding: Project computes p = x - n(x.n)/|n|^2 whose length is sin(rho), rho = angle of x from
+// the pole of the edge, with an absolute error of a few eps*kappa (kappa = 2/|a+b| >= 1 is the
+// conditioning of the normal n = (a+b)x(b-a)). Its direction is pure rounding noise once
+// rho <~ 4 eps kappa ~ 1e-15 kappa (recorded replays: rho = 4.0e-17 and 9.7e-16 with kappa ~ 1); an
+// offset of 1e-3 rad needs rho <~ 1e-12 kappa in that model. The known finding is restricted to
+// rho <= 1e-13*kappa; anything else that far off the edge is a plain violation.
+const poleRounding = 1e-13
+
+// poleParams returns rho (angle between x and the nearer pole of edge e0e1) and kappa = max(1, 2/|e0+e1|)
+func poleParams(x, e0, e1 s2.Point) (rho, kappa float64) {
 	if e0 == e1 {
-		return 1e-14
+		return math.Inf(1), 1
 	}
 	X3, A3, B3 := unitOf(x.Vector), unitOf(e0.Vector), unitOf(e1.Vector)
 	r := f64(vangle(X3, vcross(A3, B3)))
-	rho := math.Min(r, math.Pi-r)
-	kappa := math.Max(1, 2/f64(vnorm(badd3(A3, B3))))
+	return math.Min(r, math.Pi-r), math.Max(1, 2/f64(vnorm(badd3(A3, B3))))
+}
+
+// onEdgeTol: how far from its edge a point returned by Project(x, e0, e1) may be (see checkTriple (iv))
+func onEdgeTol(x, e0, e1 s2.Point) float64 {
+	rho, kappa := poleParams(x, e0, e1)
 	return 1e-14 + 1e-15*kappa*(1+1/rho)
 }
 
@@ -762,7 +772,9 @@ func checkPair(c *vkit.Collector, a0, a1, b0, b1 s2.Point, class string) {
 		c.Violate("EdgePair.shared_vertex", "edges sharing a vertex are not at distance +0", R)
 	}
 	if !degen {
-		if crosses != (d == 0) {
+		// crossing edges are at distance exactly 0; a computed 0 for non-crossing edges (a vertex within
+		// rounding of the other edge) is judged by the accuracy check below, not here
+		if crosses && d != 0 {
 			c.Violate("EdgePair.zero_iff_cross", fmt.Sprintf("exact crossing=%v but distance=%v", crosses, float64(d)), R)
 		}
 		if !crosses {
@@ -808,9 +820,13 @@ func checkPair(c *vkit.Collector, a0, a1, b0, b1 s2.Point, class string) {
 			return
 		}
 		off, tol := f64(angleOfChord2(t)), onEdgeTol(q[3], q[1], q[2])
-		if off > 1e-3 {
-			limited(c, "Project.pole_far_from_edge", fmt.Sprintf("EdgePairClosestPoints: returned point %d is %.3g rad away from its edge", side, off), R)
+		// a returned point that is not a vertex is Project(other point, edge): rho of that call
+		rho, kappa := poleParams(q[3], q[1], q[2])
+		if off > 1e-3 && rho <= poleRounding*kappa {
+			limited(c, "Project.pole_far_from_edge", fmt.Sprintf("EdgePairClosestPoints: returned point %d is %.3g rad away from its edge (the projected vertex is %.3g rad from the pole of that edge)", side, off, rho), R)
 			return
+		} else if off > 1e-3 && off > tol {
+			c.Violate("Project.on_segment.gross", fmt.Sprintf("EdgePairClosestPoints: returned point %d is %.3g rad away from its edge although the projected vertex is %.3g rad from the pole of that edge", side, off, rho), R)
 		} else if off > tol {
 			c.Violate("EdgePairClosestPoints.on_edge", fmt.Sprintf("returned point %d is %.3g rad away from its edge (tolerance %.3g)", side, off, tol), R)
 		}
